@@ -74,6 +74,5 @@ Fixpoint vbelow (c lim : Z) (l : list Z) (rl : list cell) (cl : client) : Prop :
       vbelow c lim (fst (lstep unbounded l o)) rl (k (AS (snd (lstep unbounded l o))))
   | Ask (VR o) k =>
       rop_dom (len rl) o = true /\ rneed (len rl) o <= lim /\
-      vbelow c (match o with RRaisePush => Z.max lim (len rl + 1) | _ => lim end)
-             l (fst (lstepR rl o)) (k (AR SOk (snd (lstepR rl o))))
+      vbelow c lim l (fst (lstepR rl o)) (k (AR SOk (snd (lstepR rl o))))
   end.
